@@ -2049,20 +2049,27 @@ func (t *IntersectionType) Equal(other Type) bool {
 		return false
 	}
 
-	intersectionSet := t.IntersectionSet()
-	otherIntersectionSet := otherType.IntersectionSet()
+	// NOTE: compare the sets of types using Equal, not by identity (e.g. using IntersectionSet):
+	// equal types are not necessarily identical, e.g. when the other type was decoded
 
-	if len(intersectionSet) != len(otherIntersectionSet) {
-		return false
-	}
+	return containsAllTypes(t.Types, otherType.Types) &&
+		containsAllTypes(otherType.Types, t.Types)
+}
 
-	for typ := range intersectionSet { //nolint:maprange
-		_, ok := otherIntersectionSet[typ]
-		if !ok {
+// containsAllTypes returns true if all given other types are equal to one of the given types
+func containsAllTypes(types []Type, otherTypes []Type) bool {
+	for _, otherType := range otherTypes {
+		found := false
+		for _, typ := range types {
+			if typ.Equal(otherType) {
+				found = true
+				break
+			}
+		}
+		if !found {
 			return false
 		}
 	}
-
 	return true
 }
 
